@@ -277,12 +277,12 @@ func C17(p *ir.Program, r *report.R) {
 	{
 		inc := p.Obj("types", "ValidatorSet.IncrementAccum").(*types.Func)
 		allowed := map[string]string{
-			"types.NewValidatorSet":                 "1",
-			"consensus.updateStatus":                "1",
-			csT + "enterNewRound":                   "(round - cs.RoundState.Round)",
-			csT + "getLastFaultValsInfo":            "*",
-			csT + "checkFaultValEvidence":           "*",
-			"consensus.VerifyFaultValEvidence":      "*",
+			"types.NewValidatorSet":            "1",
+			"consensus.updateStatus":           "1",
+			csT + "enterNewRound":              "(round - cs.RoundState.Round)",
+			csT + "getLastFaultValsInfo":       "*",
+			csT + "checkFaultValEvidence":      "*",
+			"consensus.VerifyFaultValEvidence": "*",
 		}
 		for _, cs := range p.CallSites(inc) {
 			n := ir.FuncName(ir.EnclosingTop(cs.Fn))
